@@ -1089,6 +1089,42 @@ def main():
                                            "site": {"primitive": c.prim, "property": "C01", "class": []}} ) if "C01" in props else None
                         found = True
                         break
+    # ---- operator pass (C05): the differential operators applied to functions whose output has ONE element but is not 0-d
+    #      ((1,), (1,1), keepdims results, (1,n)@(n,1)): the result has the structure of the argument, or the call raises ----
+    if "C05" in props and (not only or "operators" in only or True):
+        from autograd import grad as _g5, value_and_grad as _vg5, elementwise_grad as _eg5, jacobian as _j5, make_vjp as _mv5
+        from autograd.core import vspace as _vs5
+        r5 = onp.random.RandomState(cfg["seed"] % (2 ** 31))
+        A14 = onp.round(r5.uniform(-2, 2, (1, 4)) * 4) / 4
+        ops5 = {"grad": lambda f, x: _g5(f)(x), "value_and_grad": lambda f, x: _vg5(f)(x)[1], "elementwise_grad": lambda f, x: _eg5(f)(x)}
+        fs5 = [("matmul (1,n)@(n,1)", lambda X: anp.matmul(A14, X), onp.round(r5.uniform(-2, 2, (4, 1)) * 4) / 4),
+               ("(A @ X).T", lambda X: (A14 @ X).T, onp.round(r5.uniform(-2, 2, (4, 1)) * 4) / 4),
+               ("sum keepdims", lambda x: anp.sum(x * x, keepdims=True), onp.round(r5.uniform(-2, 2, (3, 2)) * 4) / 4),
+               ("sum over axis of a (1,n) array, keepdims", lambda x: anp.sum(x * x, axis=1, keepdims=True), onp.round(r5.uniform(-2, 2, (1, 3)) * 4) / 4),
+               ("reshape to (1,)", lambda x: anp.reshape(anp.sum(x * x), (1,)), onp.round(r5.uniform(-2, 2, (2, 2)) * 4) / 4),
+               ("one-element slice", lambda x: x[1:2] * x[1:2], onp.round(r5.uniform(-2, 2, (3,)) * 4) / 4),
+               ("0-d output", lambda x: anp.sum(x * x), onp.round(r5.uniform(-2, 2, (3, 2)) * 4) / 4),
+               ("scalar argument, (1,1) output", lambda x: anp.reshape(x * x, (1, 1)), 1.5)]
+        for fname, f5, x5 in fs5:
+            try:
+                y5 = f5(x5)
+                want5 = onp.asarray(_mv5(f5)(x5)[0](onp.ones(onp.shape(y5)) if onp.shape(y5) else 1.0))
+            except Exception:
+                continue
+            for oname, op5 in ops5.items():
+                out["n"] += 1
+                out["keys"].append("operator-on-size-1-output|%s|%s" % (oname, fname))
+                out["dist"]["operator pass (size-1 outputs)"] = out["dist"].get("operator pass (size-1 outputs)", 0) + 1
+                try:
+                    got5 = op5(f5, x5)
+                except Exception:
+                    continue                                   # refusing a non-scalar output is allowed
+                ok5 = _vs5(got5) == _vs5(x5) and onp.shape(got5) == onp.shape(x5) and bool(onp.all(onp.asarray(got5) == want5))
+                if not ok5:
+                    out["bad"].append({"property": "C05", "primitive": oname, "configuration": fname, "argnum": 0,
+                                       "what": "%s of a function with a one-element output of shape %s returned %s for an argument of shape %s (expected the VJP against ones: %s)"
+                                               % (oname, onp.shape(y5), onp.asarray(got5).tolist(), onp.shape(x5), want5.tolist()),
+                                       "args": [str(onp.asarray(x5).tolist())], "site": {"primitive": oname, "property": "C05", "class": []}})
     # ---- concurrent pass (C20): the same verdicts when several cases run at once in different threads
     if cfg.get("threads"):
         import threading
